@@ -47,6 +47,8 @@ type job struct {
 	// text
 	Text     string `json:"text,omitempty"`
 	KeepLits bool   `json:"keep_lits,omitempty"`
+	// iso: Text is module A, Text2 module B (see isolation.go)
+	Text2 string `json:"text2,omitempty"`
 }
 
 // jobResult is what the real code did.
@@ -66,6 +68,13 @@ type jobResult struct {
 	ReparseError string      `json:"reparse_error,omitempty"`
 	Obs          observation `json:"obs"`
 	Obs2         observation `json:"obs2"`
+	// iso
+	SharedSame   []string `json:"shared_same,omitempty"`
+	SharedDiff   []string `json:"shared_diff,omitempty"`
+	BChanged     string   `json:"b_changed,omitempty"`
+	FreshDiffers string   `json:"fresh_differs,omitempty"`
+	Hoisted      int      `json:"hoisted,omitempty"`
+	IsoSkipped   string   `json:"iso_skipped,omitempty"`
 	// set by the parent when the child died while running this job
 	Crashed string `json:"crashed,omitempty"`
 	Phase   string `json:"phase,omitempty"`
@@ -145,6 +154,8 @@ func evalJob(j job, phase func(string)) jobResult {
 			phase("print")
 			r.Got2, r.Text2, r.Extra2 = printIR(m, ts2)
 		}
+	case "iso":
+		evalIso(j, &r, phase)
 	case "text":
 		var m *ir.Module
 		var perr error
